@@ -1,5 +1,58 @@
-/- C03 — placeholder until the matcher theorems are in; not claimed in MANIFEST.json while this comment stands. -/
+/-
+C03 — A pattern accepts exactly the headers of its short/long-form language.
+Property theorems only; helper lemmas in ScpiVerif/Lemmas/Match.lean.
+
+`Spec.Pattern.parsePattern` reads a pattern text of the property's grammar (mandatory keywords,
+individually optional keywords `[:KEY]`, numeric-suffix keywords `KEY#`, optional trailing `?`,
+common `*XXX` patterns); `Spec.Pattern.accepts` lists every reading of a header in the pattern's
+language; `Spec.Pattern.wellFormed` is the side condition "no optional keyword can be mistaken for
+a keyword that may follow it".  `Match.matchCommand` is the model of the C walker.
+-/
 import ScpiVerif.Model.Match
 import ScpiVerif.Spec.Pattern
+import ScpiVerif.Lemmas.Match
+
 namespace ScpiVerif.Props.C03
+open ScpiVerif ScpiVerif.Match ScpiVerif.Spec.Pattern
+
+/-- the header alphabet of the lexer: letters, digits, '_', ':', '?', '*' -/
+def headerAlphabet (b : UInt8) : Bool := isKwChar b || b == 58 || b == 63 || b == 42
+
+/-- numbers[] after an accepted match, for the reading `sol`: the first `min |sol| |nums|` entries
+hold the suffix or the default, the rest of the caller's array is untouched -/
+def expectedNumbers (nums : List Int) (sol : List (Option Nat)) (dflt : Int) : List Int :=
+  let want := sol.map (fun o => match o with | some v => (v : Int) | none => dflt)
+  (want.take nums.length) ++ nums.drop want.length
+
+/-- Full statement (acceptance): for every pattern text of the grammar satisfying the side
+condition and every header over the header alphabet, the walker accepts iff the header is in the
+language; no read outside the strings happens. -/
+theorem match_iff_language (pat : Bytes) (p : Pat) (hp : parsePattern pat = some p)
+    (hwf : wellFormed p.kws = true) (hdr : Bytes) (hh : hdr.all headerAlphabet = true) :
+    (matchCommand pat hdr hdr.length none 0).1 = !(accepts p hdr).isEmpty ∧
+    (matchCommand pat hdr hdr.length none 0).2.2 = false :=
+  Lemmas.Match.match_iff_language pat p hp hwf hdr hh
+
+/-- Full statement (numeric suffixes): with a numbers array the result is the same, and on
+acceptance the array holds, in keyword order, the suffix of every numeric keyword or the caller's
+default when the suffix or the keyword was left out (suffix values below 2^31). -/
+theorem numbers_spec (pat : Bytes) (p : Pat) (hp : parsePattern pat = some p)
+    (hwf : wellFormed p.kws = true) (hdr : Bytes) (hh : hdr.all headerAlphabet = true)
+    (nums : List Int) (dflt : Int)
+    (hsmall : ∀ sol ∈ accepts p hdr, ∀ o ∈ sol, ∀ v, o = some v → v < 2^31) :
+    let r := matchCommand pat hdr hdr.length (some nums) dflt
+    r.1 = !(accepts p hdr).isEmpty ∧
+    (r.1 = true → ∃ sol ∈ accepts p hdr, r.2.1 = expectedNumbers nums sol dflt) ∧
+    r.2.2 = false :=
+  Lemmas.Match.numbers_spec pat p hp hwf hdr hh nums dflt hsmall
+
+/-- under the side condition a header has at most one reading -/
+theorem reading_unique (p : Pat) (hwf : wellFormed p.kws = true) (hdr : Bytes) :
+    (accepts p hdr).length ≤ 1 := Lemmas.Match.reading_unique p hwf hdr
+
+-- non-vacuity (byte lists: "[:MEASure]:VOLTage#:DC?" / "volt12:dc?")
+example : parsePattern [91,58,77,69,65,83,117,114,101,93,58,86,79,76,84,97,103,101,35,58,68,67,63] ≠ none := by decide
+example : (matchCommand [91,58,77,69,65,83,117,114,101,93,58,86,79,76,84,97,103,101,35,58,68,67,63]
+    [118,111,108,116,49,50,58,100,99,63] 10 (some [-777, -777]) 1).1 = true := by decide
+
 end ScpiVerif.Props.C03
